@@ -1200,10 +1200,13 @@ def make_snapshot_cases(run, pool, snaps):
                 pairs = [tuple(sorted(rng.sample(sysrem, 2))) for _ in range(50)]
             else:
                 pairs = []
-        for p in singles:
-            cases.append(("single", (snap, comps, env, [], rng.choice([0, 0, 1]), [p])))
-        for a, b in pairs:
-            cases.append(("pair", (snap, comps, env, [], rng.choice([0, 0, 1]), G.normalise([a, b]))))
+        # (thorough: the heap-content clause on every third enumerated removal; quick: on all of them)
+        nh = dict(env)
+        nh["_noheap"] = "1"
+        for k, p in enumerate(singles):
+            cases.append(("single", (snap, comps, env if quick or k % 3 == 0 else nh, [], rng.choice([0, 0, 1]), [p])))
+        for k, (a, b) in enumerate(pairs):
+            cases.append(("pair", (snap, comps, env if quick or k % 3 == 0 else nh, [], rng.choice([0, 0, 1]), G.normalise([a, b]))))
     return cases
 
 
@@ -1429,7 +1432,7 @@ def node_mutation_cases(run, pool, snaps):
     cases = []
     if not multi:
         return cases
-    total = 100 if quick else 2500
+    total = 80 if quick else 2500
     nd = "sys/devices/system/node/"
     for k in range(total):
         snap, nodes, gpus = multi[(run.seed + k) % len(multi)]
@@ -1640,7 +1643,7 @@ def x86_mutation_cases(run, snaps):
             ops = ["+put %s %s" % (n, t.encode().hex()) for n, t in sorted(unk.items())]
             for fl, bind in ((18, "0"), (18, "0,1"), (2, "1")) if not quick else ((18, rng.choice(["0", "0,1", "1"])),):
                 cases.append(("x86-mutation", (snap, "x86,stop", {"HWLOC_COMPONENTS": "x86,stop", "_bind": bind, "_light": "1"}, [], fl, ops)))
-        for _ in range(4 if quick else 40):
+        for _ in range(3 if quick else 40):
             kind, changed = mutate_cpuid(rng, pus)
             ops = ["+put %s %s" % (n, t.encode().hex() or "-") for n, t in sorted(changed.items())]
             env = {"HWLOC_COMPONENTS": "x86,stop"}
@@ -1654,8 +1657,8 @@ def x86_mutation_cases(run, snaps):
                 env["_bind"] = rng.choice(["0", "0,1", "1", "all", "0,2,3"])
             if rng.random() < 0.3:
                 env["HWLOC_X86_TOPOEXT_NUMANODES"] = "1"
-            if rng.random() < 0.7:
-                env["_light"] = "1"
+            if rng.random() < 0.7 or mode != "foreign":
+                env["_light"] = "1"       # (a load restricted to the binding is not comparable with its XML reload: the reload is restricted again)
             cases.append(("x86-mutation", (snap, "x86,stop", env, S.filter_lines(rng) if rng.random() < 0.3 else [], flags, ops)))
     return cases
 
@@ -1674,6 +1677,106 @@ def select_snapshots(run):
             return (l + l)[o:o + k]
         return rot(lin, 9), rot(x86, 5), rot(both, 1)
     return lin, x86, both
+
+
+# ---------------------------------------------------------------------------
+# process-history independence: static/global state in the backends
+# ---------------------------------------------------------------------------
+HISTORY_TARGETS = ["16amd64-8n2c-cpusets", "16amd64-4n4c-cgroup-distance-merge", "32amd64-4s2n4c-cgroup2", "4fake-4gr1nu1pu",
+                   "16em64t-4s2ca2c-cpusetreorder", "offline-cpu0-node0", "memorysidecaches", "64intel64-fakeKNL-SNC4-hybrid", "2arm-2c"]
+
+
+def source_lines(kind, arg, flags=0, filters=()):
+    """one complete load of a source: new ... destroy (no dump)"""
+    e = {"HWLOC_THISSYSTEM": "0"}
+    if kind == "fsroot":
+        e.update({"HWLOC_COMPONENTS": "linux,stop", "HWLOC_DUMPED_HWDATA_DIR": "/var/run/hwloc"})
+        src = ["src fsroot " + arg]
+    elif kind == "cpuid":
+        e["HWLOC_COMPONENTS"] = "x86,stop"
+        src = ["src cpuid " + arg]
+    elif kind == "xml":
+        src = ["src xml " + arg]
+    else:
+        src = ["src synthetic " + arg]
+    return ["new"] + config_lines(e, list(filters)) + ["flags %d" % flags] + src + ["load"]
+
+
+def check_history(run, pool, snapexe, allsnaps, only=None):
+    """B loaded in a fresh process must give the dump of B loaded after another source A was loaded and destroyed in the
+    same process (every cpuset/cgroup flavour, a failed load, an x86 dump, XML, synthetic), for the snapshots whose result
+    depends on cgroup/cpuset files, hwdata or memory-side caches; pairs in both orders.  only = (A spec, B rel, flags)."""
+    by_name = {s.name: s for s in allsnaps}
+    targets = [by_name[n] for n in HISTORY_TARGETS if n in by_name]
+    x86 = next((s for s in allsnaps if s.kind == "x86"), None)
+    tops = {}
+
+    def root_of(snap):
+        if snap.rel not in tops:
+            tops[snap.rel] = pool.acquire(snap)
+        return snap_root(tops[snap.rel])
+    pseudo = [("failed", "fsroot", "/nonexistent-fsroot"), ("xml", "xml", SRC_XML), ("synthetic", "synthetic", "pack:2 core:2 pu:2")]
+    if x86 is not None:
+        pseudo.append(("x86:" + x86.name, "cpuid", None))
+    jobs = []      # (label A, lines of A, B)
+    if only is not None:
+        aspec, brel, flags = only
+        b = next(s for s in allsnaps if s.rel == brel)
+        a = next((s for s in allsnaps if s.rel == aspec), None)
+        ps = next((p for p in pseudo if p[0] == aspec), None)
+        al = source_lines("fsroot", root_of(a)) if a is not None and a.kind == "linux" else source_lines("cpuid", root_of(a)) if a is not None else \
+            source_lines(ps[1], ps[2] if ps[2] else root_of(x86)) if ps else []
+        jobs.append((aspec, al, b, flags))
+    else:
+        quick = run.tier == "quick"
+        for b in targets:
+            preds = [a for a in targets if a is not b]
+            if quick:
+                o = (run.seed + len(b.name)) % max(1, len(preds))
+                preds = (preds + preds)[o:o + 4]
+            for a in preds:
+                jobs.append((a.rel, source_lines("fsroot", root_of(a)), b, 0))
+            for lab, kind, arg in pseudo:
+                jobs.append((lab, source_lines(kind, arg if arg else root_of(x86)), b, run.rng.choice([0, 0, 1])))
+    refs = {}
+
+    def fresh(b, flags):
+        if (b.rel, flags) not in refs:
+            scr = source_lines("fsroot", root_of(b), flags) + ["dump", "destroy"]
+            rc, out, err = C.sh([snapexe], input=("\n".join(scr) + "\n").encode(), env=_env(), timeout=300)
+            refs[(b.rel, flags)] = (rc, [l for l in out.decode(errors="replace").split("\n") if l.startswith(("load ", "T ", "L ", "D ", "O "))])
+        return refs[(b.rel, flags)]
+    for b in {j[2] for j in jobs}:
+        root_of(b)
+    for _, _, b, flags in jobs:
+        fresh(b, flags)
+
+    def one(job):
+        lab, alines, b, flags = job
+        scr = alines + ["destroy"] + source_lines("fsroot", root_of(b), flags) + ["dump", "destroy"]
+        rc, out, err = C.sh([snapexe], input=("\n".join(scr) + "\n").encode(), env=_env(), timeout=300)
+        lines = out.decode(errors="replace").split("\n")
+        # the lines of the second load only
+        k = next((i for i, l in enumerate(lines) if l == "destroy"), -1)
+        return job, rc, [l for l in lines[k + 1:] if l.startswith(("load ", "T ", "L ", "D ", "O "))], err.decode(errors="replace")
+    n = 0
+    with cf.ThreadPoolExecutor(max_workers=C.NCPU) as ex:
+        for (lab, alines, b, flags), rc, got, err in ex.map(one, jobs):
+            n += 1
+            rrc, ref = fresh(b, flags)
+            run.count("history|%s|%s|%d|%d" % (lab, b.rel, flags, len(got)), nontrivial=bool(got) and "rc=0" in got[0], kind="history:" + b.kind)
+            replay = "history: %s\nsnapshot: %s\nflags: %d\n" % (lab, b.rel, flags)
+            if rc != 0:
+                run.violation("crash:history:" + crash_key(rc, err), "crash when %s is loaded after %s in the same process" % (b.rel, lab), replay + err[-2000:])
+            elif got != ref:
+                k = next((i for i, (x, y) in enumerate(zip(ref, got)) if x != y), min(len(ref), len(got)))
+                fa, fb = (ref[k] if k < len(ref) else "<end>").split(" "), (got[k] if k < len(got) else "<end>").split(" ")
+                run.violation("history-dependence:%s" % b.name,
+                              "%s loaded after %s (loaded and destroyed in the same process) differs from the same load in a fresh process: %d/%d lines; first differing line %s: %s"
+                              % (b.rel, lab, len(ref), len(got), " ".join(fa[:3]), " ".join("%s->%s" % (x, y) for x, y in zip(fa, fb) if x != y)[:300]), replay)
+    for rel, top in tops.items():
+        pool.release(next(s for s in allsnaps if s.rel == rel), top)
+    return n
 
 
 def check_snapshots(run, snapexe, drv, replay_case=None):
@@ -1707,11 +1810,17 @@ def check_snapshots(run, snapexe, drv, replay_case=None):
         run.cov["snapshots_used"] = sorted(s.rel for s in snaps)
         # judge per label so that the evidence shows the distribution
         cases = [c for _, c in labelled]
+        import time as _t
+        t0 = _t.time()
         results = search.exec_cases(cases)
+        C.log("[c18] generation+exec of %d cases %.1fs" % (len(cases), _t.time() - t0))
         for lab in sorted(set(l for l, _ in labelled)):
             idx = [i for i, (l, _) in enumerate(labelled) if l == lab]
             search.judge([cases[i] for i in idx], [results[i] for i in idx], lab)
         judge_io(run, cases, results)
+        t0 = _t.time()
+        run.cov["history_pairs"] = check_history(run, pool, snapexe, allsnaps)
+        C.log("[c18] judge %.1fs" % 0 + " history %.1fs" % (_t.time() - t0))
         return len(cases)
     finally:
         pool.close()
@@ -1728,6 +1837,15 @@ def check(run, replay=None):
         if m:
             b = b"" if m.group(2) == "-" else bytes.fromhex(m.group(2))
             check_parsers(run, par, drv, only=[(m.group(1), b, None, "replay")])
+        elif re.search(r"^history: ", txt, re.M):
+            pool = Pool()
+            try:
+                allsnaps = [Snap(t) for k in ("linux", "x86", "x86+linux") for t in S.snapshots(k)]
+                check_history(run, pool, snapexe, allsnaps, only=(re.search(r"^history: (.*)$", txt, re.M).group(1).strip(),
+                                                                    re.search(r"^snapshot: (.*)$", txt, re.M).group(1).strip(),
+                                                                    int(re.search(r"^flags: (\d+)", txt, re.M).group(1))))
+            finally:
+                pool.close()
         else:
             case = parse_case_text(txt, {})
             if case is None:
